@@ -702,6 +702,26 @@ class ExprMixin:
         return A.view_of(recv, UNK)
 
     def container_method(self, e, recv: AV, name: str, vals) -> AV:
+        # kwargs.setdefault("copy", <bool>) / kwargs.pop("copy", ...) / kwargs.update(copy=...) on the **kwargs of this function
+        if isinstance(e, ast.Call) and isinstance(e.func, ast.Attribute) and isinstance(e.func.value, ast.Name) and e.func.value.id == getattr(self, "kwname", None):
+            first = e.args[0].value if e.args and isinstance(e.args[0], ast.Constant) else None
+            cur = self.env.get("$copy", A.imm("A")).const or "U"
+            if name == "setdefault" and first == "copy" and len(e.args) == 2:
+                if cur == "A":
+                    v = vals[-1] if vals else None
+                    self.env["$copy"] = A.imm({False: "F", True: "T"}.get(v.const, "U") if v is not None and v.kind == A.IMM and isinstance(v.const, bool) else "U")
+                elif cur == "U":
+                    pass
+            elif name == "pop" and first == "copy":
+                self.env["$copy"] = A.imm("A")
+            elif name == "update":
+                for k in e.keywords:
+                    if k.arg == "copy":
+                        self.env["$copy"] = A.imm({False: "F", True: "T"}.get(k.value.value, "U") if isinstance(k.value, ast.Constant) else "U")
+                    elif k.arg is None:
+                        self.env["$copy"] = A.imm("U")
+                if e.args:
+                    self.env["$copy"] = A.imm("U")
         if name in N.CONTAINER_MUTATORS:
             val = A.join_all(vals) if vals else None
             self.mutate_container(recv, e, val, note=f".{name}() mutates the container")
